@@ -24,15 +24,27 @@ def stress_internal_names(ctx, x, y):
 
 
 def _helper(ctx, z):
+    # t and u are used twice, so both need a variable; the second call of _helper must rename them
     t = z * z
     u = t + z
-    return ctx(u)
+    v = u * t + u
+    return ctx(v)
 
 
 def stress_call_twice(ctx, z):
     a = ctx.call(_helper, (z,))
     b = ctx.call(_helper, (a + 1,))
-    result = a * b
+    result = a * b + a
+    return ctx(result)
+
+
+def stress_alias_locals(ctx, x, y):
+    # two local names for one expression: which name becomes the variable must not depend on
+    # anything but the definition
+    first = x * y
+    second = first
+    s = first + second * x
+    result = s * s
     return ctx(result)
 
 
@@ -57,6 +69,7 @@ STRESS = {
     "stress_call_twice": (stress_call_twice, 1),
     "stress_shadow": (stress_shadow, 1),
     "stress_hypot_user": (stress_hypot_user, 2),
+    "stress_alias_locals": (stress_alias_locals, 2),
 }
 STRESS_SIGS = {
     "python": [":float"],
